@@ -3,6 +3,8 @@ import PortusModel.Props.C04
 import PortusModel.Props.C07
 import PortusModel.Props.C08
 import PortusModel.Driver.Bkd
+import PortusModel.Driver.Ctl
+import PortusModel.Props.C06
 /-! `ORC <id> Cnn <input> <observed…>`: evaluate the property oracle `Cnn.check` on behaviour observed
 from the implementation. Answers `PASS` or `FAIL`. -/
 namespace Portus.Driver
@@ -131,6 +133,16 @@ def orcC08 (args : List String) : String :=
   | [_fill :: items, obs] =>
     match items.mapM parseRx, parseYields obs with
     | some rx, some ys => passFail (C08.check rx ys)
+    | _, _ => "FAIL unparsable-observation"
+  | _ => "BADARG"
+
+def orcC06 (args : List String) : String :=
+  match splitAt "@@" args with
+  | [spec, obs] =>
+    match parseCtlSpec spec, parseEncResult obs with
+    | some s, some r =>
+      let sp : C06.Spec := match s with | .cp m => .cp m | .uf m => .uf m | .ins m => .ins m
+      passFail (C06.check sp r)
     | _, _ => "FAIL unparsable-observation"
   | _ => "BADARG"
 
